@@ -334,7 +334,7 @@ def generate(repo, lean_dir):
     import glob
     srcs = glob.glob(os.path.join(repo, 'ncclient', 'operations', '*.py')) + glob.glob(os.path.join(repo, 'ncclient', 'operations', 'third_party', '*', '*.py')) \
         + [os.path.join(repo, 'ncclient', 'xml_.py'), os.path.join(repo, 'ncclient', 'manager.py')]
-    out = ['-- GENERATED by harness/gen/optable.py from /repo (source hash %s). Do not edit.' % src_hash(srcs),
+    out = ['-- GENERATED by harness/gen/optable.py from /repo on every run. Do not edit.',
            'import NcVerif.Model.Basic', 'namespace NcVerif.Gen', 'open NcVerif', '',
            'structure OpRow where', '  op : Str', '  profile : Str', '  args : List (Str × Str)', '  capsMode : Str', '  outcome : Str', '  nsent : Nat',
            '  rootNs : Str', '  rootName : Str', '  hasMsgId : Bool', '  nOps : Nat', '  opNs : Str', '  opName : Str',
